@@ -2192,6 +2192,21 @@ impl HandlerRunner {
                 self.wire.push(Datagram { from_idx: ATTACKER, src: node_addr(get(0)), dst, dst_id: denr.node_id(), bytes });
                 true
             }
+            // hcraft otherid CLAIMED_SRC REAL DST BODY : node REAL, which has a session with DST, sends a
+            // request from its own socket, sealed under its own session key, with the id of CLAIMED_SRC in
+            // the header (a session belongs to a node id *and* a socket: this is a packet from a stranger)
+            "otherid" => {
+                let (Some((_, cenr)), Some((_, denr))) = (self.key_for_idx(get(0)), self.key_for_idx(get(2))) else { return false };
+                let dst = node_addr(get(2));
+                let Some(k) = self.last_seal.get(&(get(1), dst)).copied() else { return false };
+                let nonce: [u8; 12] = r.bytes(12).try_into().unwrap();
+                let body = Request { id: rid_bytes(700_000 + self.wire.len() as u64), body: body_of(get(3).max(1)) }.encode();
+                let Some(bytes) = hf::craft_message(cenr.node_id(), &denr.node_id(), nonce, &k, &body) else { return false };
+                self.ledger.sealed.entry((k, body)).or_insert(get(1));
+                stats.bump("h.craft.message-under-own-session-with-another-id");
+                self.wire.push(Datagram { from_idx: ATTACKER, src: node_addr(get(1)), dst, dst_id: denr.node_id(), bytes });
+                true
+            }
             // hcraft whoareyou DST ECHO_WIRE_K ENRSEQ : a WHOAREYOU echoing the nonce of wire datagram K
             "whoareyou" => {
                 let Some((_, denr)) = self.key_for_idx(get(0)) else { return false };
@@ -3132,6 +3147,13 @@ pub fn gen_case(rng: &mut Rng, tier: &str, profile: &str, stats: &mut Stats) -> 
                     7 if rng.chance(1, 2) => {
                         // a request sealed under the all-zero key, from the claimed peer's own address
                         ops.push(format!("hcraft zerokey {} {} {}", x, y, rng.range(1, 4)));
+                        ops.push("hdel last".into());
+                    }
+                    7 | 8 => {
+                        // a peer with a session of its own sends, from its own socket and under its own
+                        // key, a request that names somebody else (another node, or the attacker) as source
+                        let claimed = if rng.chance(1, 2) { 9 } else { other(rng, x) };
+                        ops.push(format!("hcraft otherid {} {} {} {}", claimed, x, y, rng.range(1, 4)));
                         ops.push("hdel last".into());
                     }
                     _ => {
